@@ -195,6 +195,25 @@ def make_cb(prog, presence):
             if r[0] != 'ok':
                 raise Unsupported('backup failed in the change-callback harness')
             got = [e for e in events if e[1] == 'Deleted' or (e[0] in live and live[e[0]].kind == 'File')]
+            # "comparing a version with the very tree it was made from reports no change": the version this backup just wrote
+            nb = max(A.read_store(ex, st)[0])
+            band1 = A.run_async(ex, A.fn_by(prog, 'Band', None, 'open'), [Ref([ar], 0), Agg('bandid::BandId', None, [nb])])
+            if band1.variant == 0:
+                dcands = [n for n, _ in prog.fn_index.get((None, None, 'diff'), []) if n in ('diff', 'diff::diff')]
+                stree1 = mk(ex, 'stored_tree::StoredTree', band=band1.fields[0], archive=ar)
+                dopts = mk(ex, 'diff::DiffOptions', exclude=A.ExcludeV(), include_unchanged=False)
+                B.install_source(ex, tree)
+                dr = A.run_async(ex, dcands[0], [Ref([stree1], 0), Ref([tree], 0), dopts, A.monitor_arc(ex)])
+                if dr.variant == 0:
+                    cell1 = [dr.fields[0]]
+                    dnxt = A.fn_by(prog, 'Diff', None, 'next')
+                    for _ in range(12):
+                        o1 = A.run_async(ex, dnxt, [Ref(cell1, 0, True)])
+                        if o1.variant == 0:
+                            break
+                        ec1 = o1.fields[0]
+                        got.append((str_simplify(field(ex, ec1, 'change::EntryChange', 'apath').fields[0]),
+                                    'new version differs from its own tree: ' + variant_name(ex, field(ex, ec1, 'change::EntryChange', 'change'))))
             want = []
             for p, pr in zip(PATHS, presence):
                 if pr == '-':
